@@ -212,6 +212,20 @@ class _RecFeatureSparseBase(Feature):
         return np.array([float(self._seen), 0.0 if mid != mid else float(mid)])
 
 
+from tradingenv.library import FeaturePortfolioWeight  # noqa: E402
+
+
+class GuardedPortfolioWeight(FeaturePortfolioWeight):
+    """The library's portfolio-weight feature; while the account cannot be valued (no broker yet, a held contract
+    without a quote, an insolvent account) it reports zeros instead of failing inside the environment."""
+
+    def parse(self):
+        try:
+            return super().parse()
+        except Exception:
+            return np.zeros((1, self._size))
+
+
 RecFeatureSparse = type("RecFeatureSparse", (_RecFeatureSparseBase,), dict(_mk_callbacks("feature", ["EvA"]), __module__=__name__))
 
 
@@ -379,6 +393,13 @@ class EnvHandle(object):
                 c0 = self.contracts[0]
                 if spec["contracts"][0]["kind"] != "chain":
                     feats = (feats or []) + [RecFeatureSparse(sink, tag, contract=c0, name="sparse")]
+            self.pw = None
+            if st.get("pw_feature") and all(cs["kind"] != "chain" for cs in spec["contracts"]):
+                # a feature from the library's own collection, built the documented way (no transformer argument) and
+                # fitted by hand to its declared bounds
+                lo, hi = st["pw_feature"]
+                self.pw = GuardedPortfolioWeight(list(self.contracts), lo, hi, name="pw")
+                feats = (feats or []) + [self.pw]
             self.state = scls(sink, tag, feats)
         elif st["type"] == "window":
             self.state = RecWindowState(sink, tag, st["n"], st["window"], st.get("stride"))
@@ -390,6 +411,8 @@ class EnvHandle(object):
             from tradingenv.contracts import ETF
             TradingEnv(action_space=BoxPortfolio([ETF("ZZPRIOR")]), transmitter=self.transmitter)
         self._make_env()
+        if getattr(self, "pw", None) is not None:
+            self.pw.fit_transformer()
         self.episodes = []
         self.clones = []            # forked copies of the running environment (op 'fork'), dropped at the next reset
         self.clone_first = False
